@@ -870,6 +870,255 @@ fn run_huge_suv(ctx: &mut Ctx) {
     } } }
 }
 
+// ---------------------------------------------------------------------------------------------------------------------
+// *_ext families: the rest of the mutating / loading / constructor API of the containers, against the same oracles.
+//   UintVecMin0: resize_with_wire_max_val, risk_set_data (load of a packed buffer), compute_mem_size_by_max_val, mem_size
+//   ZipIntVec:   clear, resize_with_range, risk_set_data, swap, max_val, is_empty, inner, mem_size
+//   SortedUintVec: new / with_pool (empty containers), builder with_pool == plain builder, builder len / is_empty, is_empty,
+//                  the length fields of analyze_sequence_patterns / compression_stats
+//   IntVec: Clone == original; UintVector: memory_usage (called, noted)
+// Elements exposed by a growing resize or by a resize_with_* call are unspecified (None in the model) until written.
+// ---------------------------------------------------------------------------------------------------------------------
+/// hand `bytes` over as an allocation the library may own and free as a Vec<u8> with len == capacity
+fn leak_bytes(bytes: &[u8]) -> *mut u8 { Box::into_raw(bytes.to_vec().into_boxed_slice()) as *mut u8 }
+
+fn min0_check_opt(c: &mut Case, v: &UintVecMin0, model: &[Option<u64>], what: &str, trace: &str) -> Res {
+    let n = model.len();
+    ensure!(v.size() == n, "len", "{what}: size()={} want {n} [{trace}]", v.size());
+    ensure!(v.is_empty() == (n == 0), "len", "{what}: is_empty()={} with size {n} [{trace}]", v.is_empty());
+    let (bits, mask) = (v.uintbits(), v.uintmask());
+    let plain = UintVecMin0::compute_mem_size(bits, n); let by_max = UintVecMin0::compute_mem_size_by_max_val(mask, n);
+    ensure!(plain == by_max, "mem_size_by_max_val", "compute_mem_size_by_max_val({mask},{n})={by_max} but compute_mem_size({bits},{n})={plain}");
+    ensure!(v.mem_size() == v.data().len(), "mem_size", "{what}: mem_size()={} data().len()={} [{trace}]", v.mem_size(), v.data().len());
+    if n > 0 && v.mem_size() < plain { c.note("mem_size_lt_needed", 1); }
+    let mut cur = 0usize; let mut reads = 0u64;
+    let res = catch(|| { for i in 0..n { cur = i; let Some(w) = model[i] else { continue };
+            let g = v.get(i) as u64; if g != w { return Err(format!("get({i})={g}")); }
+            if i + 1 < n { if let Some(w2) = model[i + 1] { let g2 = v.get2(i); if g2[0] as u64 != w || g2[1] as u64 != w2 { return Err(format!("get2({i})={g2:?}")); } } }
+            match UintVecMin0::fast_get(v.data(), bits, mask, i) { Ok(x) if x as u64 == w => {}, other => return Err(format!("fast_get({i})={other:?}")) }
+            reads += 3; }
+        if n > 0 { if let Some(w) = model[n - 1] { if v.back() as u64 != w { return Err(format!("back()={}", v.back())); } } } Ok(()) });
+    match res { Ok(Ok(())) => {}, Ok(Err(d)) => return Err(bad("value_mismatch", format!("after {what} (n={n} bits={bits}): {d} want {:?} [{trace}]", model[cur]))),
+        Err(p) => return Err(bad("get_panic", format!("after {what} (n={n} bits={bits}): read at {cur} panicked at {}: {} [{trace}]", p.loc, p.msg))) }
+    c.ev(reads);
+    for k in [n, n + 1] { if let Ok(x) = catch(|| v.get(k)) { return Err(bad("oob_value", format!("after {what}: get({k}) with size {n} returned {x} [{trace}]"))); } }
+    Ok(())
+}
+fn zip_check_opt(c: &mut Case, z: &ZipIntVec, model: &[Option<u64>], what: &str, trace: &str) -> Res {
+    let n = model.len(); let min = z.min_val() as u64;
+    ensure!(z.size() == n, "len", "{what}: size()={} want {n} [{trace}]", z.size());
+    ensure!(z.is_empty() == (n == 0), "len", "{what}: is_empty()={} with size {n} [{trace}]", z.is_empty());
+    ensure!(z.inner().size() == n, "len", "{what}: inner().size()={} want {n} [{trace}]", z.inner().size());
+    let (bits, mask) = (z.uintbits(), z.uintmask());
+    // documented: set() accepts up to min_val + uintmask; max_val() is "the maximum value that can be stored"
+    ensure!(z.max_val() as u64 == min.saturating_add(mask as u64), "max_val", "{what}: max_val()={} but min_val {min} + uintmask {mask} [{trace}]", z.max_val());
+    if z.mem_size() != z.inner().mem_size() + size_of::<usize>() { c.note("zip_mem_size_ne_inner_plus_8", 1); }
+    let mut cur = 0usize; let mut reads = 0u64;
+    let res = catch(|| { for i in 0..n { cur = i; let Some(w) = model[i] else { continue };
+            let g = z.get(i) as u64; if g != w { return Err(format!("get({i})={g}")); }
+            let gi = z.inner().get(i) as u64; if min.checked_add(gi) != Some(w) { return Err(format!("inner().get({i})={gi} (+min {min})")); }
+            if i + 1 < n { if let Some(w2) = model[i + 1] { let g2 = z.get2(i); if g2[0] as u64 != w || g2[1] as u64 != w2 { return Err(format!("get2({i})={g2:?}")); } } }
+            match ZipIntVec::fast_get(z.data(), bits, mask, z.min_val(), i) { Ok(x) if x as u64 == w => {}, other => return Err(format!("fast_get({i})={other:?}")) }
+            if w > z.max_val() as u64 { return Err(format!("max_val()={} below stored element {i}", z.max_val())); }
+            reads += 4; }
+        if n > 0 { if let Some(w) = model[n - 1] { if z.back() as u64 != w { return Err(format!("back()={}", z.back())); } } } Ok(()) });
+    match res { Ok(Ok(())) => {}, Ok(Err(d)) => return Err(bad("value_mismatch", format!("after {what} (n={n} bits={bits} min={min}): {d} want {:?} [{trace}]", model[cur]))),
+        Err(p) => return Err(bad("get_panic", format!("after {what} (n={n} bits={bits} min={min}): read at {cur} panicked at {}: {} [{trace}]", p.loc, p.msg))) }
+    c.ev(reads);
+    for k in [n, n + 1] { if let Ok(x) = catch(|| z.get(k)) { return Err(bad("oob_value", format!("after {what}: get({k}) with size {n} returned {x} [{trace}]"))); } }
+    Ok(())
+}
+
+fn run_ext_min0_zip(ctx: &mut Ctx) {
+    for idx in 0..ctx.n(300, 4000) as u64 {
+        ctx.case("uvmin0/history", "ops_ext", idx, |c| {
+            let wcap = if c.rng.chance(1, 3) { 8 } else { 57 }; let wmax = 1 + c.rng.below(wcap) as u32;
+            let mut model: Vec<Option<u64>> = Vec::new(); let nops = 20 + c.rng.usize_below(100); let mut trace = String::new();
+            let mut v = UintVecMin0::new_empty(); c.input_str("wmax", &wmax.to_string());
+            for step in 0..nops {
+                let curmask = v.uintmask() as u64; let n = model.len(); let roll = c.rng.below(100); let what;
+                if roll < 36 || n == 0 && roll < 60 { let x = match c.rng.below(8) { 0 => exact_bits(&mut c.rng, wmax), 1 => curmask, 2 => 0, 3 => 1, _ => c.rng.next() & curmask.max(1) } & mask_of(wmax);
+                    what = format!("push_back({x})"); catch(|| v.push_back(x as usize)).map_err(|p| bad(&p.class(), format!("op#{step} {what} panicked at {}: {} [{trace}]", p.loc, p.msg)))?; model.push(Some(x));
+                } else if roll < 48 && n > 0 { let i = c.rng.usize_below(n); let x = match c.rng.below(4) { 0 => curmask, 1 => 0, _ => c.rng.next() & curmask }; what = format!("set({i},{x})");
+                    catch(|| v.set(i, x as usize)).map_err(|p| bad(&p.class(), format!("op#{step} {what} panicked at {}: {} [{trace}]", p.loc, p.msg)))?; model[i] = Some(x);
+                } else if roll < 58 { let k = match c.rng.below(4) { 0 => 0, 1 => n.saturating_sub(1 + c.rng.usize_below(3)), 2 => c.rng.usize_below(n + 1), _ => n + c.rng.usize_below(4) }; what = format!("resize({k})");
+                    catch(|| v.resize(k)).map_err(|p| bad(&p.class(), format!("op#{step} {what} panicked at {}: {} [{trace}]", p.loc, p.msg)))?; model.resize(k, None);
+                } else if roll < 72 { // new width and size in one call; old contents are not specified afterwards
+                    let num = match c.rng.below(4) { 0 => c.rng.usize_below(n + 1), 1 => n + c.rng.usize_below(40), 2 => *c.rng.pick(&[0usize, 1, 63, 64, 65, 128, 129]), _ => c.rng.usize_below(300) };
+                    let w = c.rng.below(wmax as u64 + 1) as u32; let mx = exact_bits(&mut c.rng, w); what = format!("resize_with_wire_max_val({num},{mx})");
+                    catch(|| v.resize_with_wire_max_val(num, mx as usize)).map_err(|p| bad(&p.class(), format!("op#{step} {what} panicked at {}: {} [{trace}]", p.loc, p.msg)))?;
+                    ensure!(v.uintmask() as u64 >= mx, "width", "op#{step} {what}: uintmask()={} cannot hold the stated maximum (bits={}) [{trace}]", v.uintmask(), v.uintbits());
+                    ensure!(v.uintbits() == UintVecMin0::compute_uintbits(mx as usize), "width", "op#{step} {what}: uintbits()={} but compute_uintbits({mx})={} [{trace}]", v.uintbits(), UintVecMin0::compute_uintbits(mx as usize));
+                    model = vec![None; num];
+                    if c.rng.chance(2, 3) { let mut order: Vec<usize> = (0..num).collect(); c.rng.shuffle(&mut order); let keep = if c.rng.bool() { num } else { c.rng.usize_below(num + 1) };
+                        for &i in &order[..keep] { let x = match c.rng.below(4) { 0 => mx, 1 => 0, _ => c.rng.below(mx + 1) };
+                            catch(|| v.set(i, x as usize)).map_err(|p| bad(&p.class(), format!("op#{step} set({i},{x}) after {what} panicked at {}: {} [{trace}]", p.loc, p.msg)))?; model[i] = Some(x); } }
+                } else if roll < 82 { // load: a fresh vector adopts a copy of the packed bytes
+                    let bits = v.uintbits(); let need = UintVecMin0::compute_mem_size(bits, n); what = format!("risk_set_data(n={n},bits={bits})");
+                    if v.data().len() >= need && bits <= 58 { let p = leak_bytes(&v.data()[..need]); let mut w = UintVecMin0::new_empty();
+                        catch(|| unsafe { w.risk_set_data(p, n, bits) }).map_err(|p| bad(&p.class(), format!("op#{step} {what} panicked at {}: {} [{trace}]", p.loc, p.msg)))?; v = w; c.note("loads", 1); }
+                } else if roll < 89 { what = "shrink_to_fit".to_string(); v.shrink_to_fit();
+                } else if roll < 93 { what = "clear".to_string(); v.clear(); model.clear();
+                } else { what = "read".to_string(); }
+                if trace.len() < 1500 { trace.push_str(&what); trace.push(' '); }
+                min0_check_opt(c, &v, &model, &format!("op#{step} {what}"), &trace)?;
+            }
+            c.input_str("ops", &trace); c.set_nontrivial(true); Ok(())
+        });
+        ctx.case("zipint/history", "ops_ext", idx, |c| {
+            let wcap = if c.rng.chance(1, 3) { 8 } else { 57 }; let wmax = 1 + c.rng.below(wcap) as u32;
+            let pick_min = |r: &mut Rng| -> u64 { match r.below(4) { 0 => 0u64, 1 => r.below(1000), 2 => 1_700_000_000 + r.below(1 << 20), _ => r.next() >> 2 } };
+            let nops = 20 + c.rng.usize_below(100); let mut trace = String::new(); c.input_str("wmax", &wmax.to_string());
+            // the vector under test and a second one to swap with (built in bulk)
+            let mut z = ZipIntVec::new_empty(); let mut model: Vec<Option<u64>> = Vec::new();
+            let omin = pick_min(&mut c.rng); let on = c.rng.usize_below(70); let ovals: Vec<u64> = (0..on).map(|_| omin + (c.rng.next() & mask_of(wmax))).collect(); c.input("other_vals_u64_le", &le_bytes(&ovals));
+            let mut other = catch(|| ZipIntVec::build_from_usize(&ovals.iter().map(|&x| x as usize).collect::<Vec<usize>>())).map_err(|p| bad(&p.class(), format!("build_from_usize(n={on}) panicked at {}: {}", p.loc, p.msg)))?;
+            let mut omodel: Vec<Option<u64>> = ovals.iter().map(|&x| Some(x)).collect();
+            for step in 0..nops {
+                let min = z.min_val() as u64; let curmask = z.uintmask() as u64; let n = model.len(); let roll = c.rng.below(100); let what;
+                if roll < 34 || n == 0 && roll < 55 { let off = match c.rng.below(8) { 0 => exact_bits(&mut c.rng, wmax), 1 => curmask, 2 => 0, 3 => 1, _ => c.rng.next() & curmask.max(1) } & mask_of(wmax); let x = min + off;
+                    what = format!("push_back({x})"); catch(|| z.push_back(x as usize)).map_err(|p| bad(&p.class(), format!("op#{step} {what} (min {min}) panicked at {}: {} [{trace}]", p.loc, p.msg)))?; model.push(Some(x));
+                } else if roll < 46 && n > 0 { let i = c.rng.usize_below(n); let x = match c.rng.below(4) { 0 => z.max_val() as u64, 1 => min, _ => min + (c.rng.next() & curmask) }; what = format!("set({i},{x})");
+                    catch(|| z.set(i, x as usize)).map_err(|p| bad(&p.class(), format!("op#{step} {what} (min {min} max_val {}) panicked at {}: {} [{trace}]", z.max_val(), p.loc, p.msg)))?; model[i] = Some(x);
+                } else if roll < 54 { let k = match c.rng.below(4) { 0 => 0, 1 => n.saturating_sub(1 + c.rng.usize_below(3)), 2 => c.rng.usize_below(n + 1), _ => n + c.rng.usize_below(4) }; what = format!("resize({k})");
+                    catch(|| z.resize(k)).map_err(|p| bad(&p.class(), format!("op#{step} {what} panicked at {}: {} [{trace}]", p.loc, p.msg)))?; model.resize(k, None);
+                } else if roll < 68 { // new range and size; old contents are not specified afterwards
+                    let num = match c.rng.below(4) { 0 => c.rng.usize_below(n + 1), 1 => n + c.rng.usize_below(40), 2 => *c.rng.pick(&[0usize, 1, 63, 64, 65, 128, 129]), _ => c.rng.usize_below(300) };
+                    let nmin = pick_min(&mut c.rng); let w = 1 + c.rng.below(wmax as u64) as u32; let span = exact_bits(&mut c.rng, w); let nmax = nmin + span; what = format!("resize_with_range({num},{nmin},{nmax})");
+                    catch(|| z.resize_with_range(num, nmin as usize, nmax as usize)).map_err(|p| bad(&p.class(), format!("op#{step} {what} panicked at {}: {} [{trace}]", p.loc, p.msg)))?;
+                    ensure!(z.min_val() as u64 <= nmin && z.max_val() as u64 >= nmax, "range", "op#{step} {what}: container reports [{}, {}] [{trace}]", z.min_val(), z.max_val());
+                    model = vec![None; num];
+                    if c.rng.chance(2, 3) { let mut order: Vec<usize> = (0..num).collect(); c.rng.shuffle(&mut order); let keep = if c.rng.bool() { num } else { c.rng.usize_below(num + 1) };
+                        for &i in &order[..keep] { let x = match c.rng.below(4) { 0 => nmax, 1 => nmin, _ => nmin + c.rng.below(span + 1) };
+                            catch(|| z.set(i, x as usize)).map_err(|p| bad(&p.class(), format!("op#{step} set({i},{x}) after {what} panicked at {}: {} [{trace}]", p.loc, p.msg)))?; model[i] = Some(x); } }
+                } else if roll < 76 { what = "swap".to_string(); z.swap(&mut other); std::mem::swap(&mut model, &mut omodel);
+                    zip_check_opt(c, &other, &omodel, &format!("op#{step} swap (other side)"), &trace)?;
+                } else if roll < 84 { // load: a fresh vector adopts a copy of the packed bytes
+                    let bits = z.uintbits(); let need = UintVecMin0::compute_mem_size(bits, n); what = format!("risk_set_data(n={n},min={min},bits={bits})");
+                    if z.data().len() >= need && bits <= 58 { let p = leak_bytes(&z.data()[..need]); let mut w = ZipIntVec::new_empty();
+                        catch(|| unsafe { w.risk_set_data(p, n, min as usize, bits) }).map_err(|p| bad(&p.class(), format!("op#{step} {what} panicked at {}: {} [{trace}]", p.loc, p.msg)))?; z = w; c.note("loads", 1); }
+                } else if roll < 89 { what = "shrink_to_fit".to_string(); z.shrink_to_fit();
+                } else if roll < 94 { what = "clear".to_string(); z.clear(); model.clear(); // the value range after clear() is whatever min_val() reports (read at the top of the loop)
+                } else { what = "read".to_string(); }
+                if trace.len() < 1500 { trace.push_str(&what); trace.push(' '); }
+                zip_check_opt(c, &z, &model, &format!("op#{step} {what}"), &trace)?;
+            }
+            c.input_str("ops", &trace); c.set_nontrivial(true); Ok(())
+        });
+    }
+}
+
+/// every read of a built SortedUintVec against the input (no rng draws)
+fn suv_reads(c: &mut Case, sv: &SortedUintVec, cfg: &SortedUintVecConfig, vals: &[u64], what: &str) -> Res {
+    let bs = 1usize << cfg.log2_block_units; let n = vals.len(); let nb = (n + bs - 1) / bs;
+    ensure!(sv.len() == n, "len", "{what}: len()={} want {n}", sv.len());
+    ensure!(sv.is_empty() == (n == 0), "len", "{what}: is_empty()={} with len {n}", sv.is_empty());
+    ensure!(sv.num_blocks() == nb, "len", "{what}: num_blocks()={} want {nb}", sv.num_blocks());
+    let mut cur = 0usize;
+    let res = catch(|| { for i in 0..n { cur = i; match sv.get(i) { Ok(x) if x == vals[i] => {}, other => return Err(format!("get({i})={other:?}")) }
+            if i + 1 < n { match sv.get2(i) { Ok((a, b)) if a == vals[i] && b == vals[i + 1] => {}, other => return Err(format!("get2({i})={other:?}")) } } } Ok(()) });
+    match res { Ok(Ok(())) => {}, Ok(Err(d)) => return Err(bad("value_mismatch", format!("{what} n={n} cfg={cfg:?}: {d} want {} (block base {})", vals[cur], vals[cur / bs * bs]))),
+        Err(p) => return Err(bad("get_panic", format!("{what} n={n} cfg={cfg:?}: read at {cur} panicked at {}: {}", p.loc, p.msg))) }
+    c.ev(2 * n as u64);
+    let mut out = vec![0xDEAD_BEEFu64; bs];
+    for b in 0..nb { let r = catch(|| sv.get_block(b, &mut out)).map_err(|p| bad("get_panic", format!("{what}: get_block({b}) panicked at {}: {}", p.loc, p.msg)))?;
+        ensure!(r.is_ok(), "get_block_err", "{what}: get_block({b}) of {nb}: {r:?}"); let cnt = bs.min(n - b * bs);
+        for j in 0..cnt { ensure!(out[j] == vals[b * bs + j], "get_block_mismatch", "{what}: get_block({b})[{j}]={} want {} (n={n} cfg={cfg:?})", out[j], vals[b * bs + j]); } c.ev(cnt as u64); }
+    for k in [n, n + 1, n + bs] { let g = catch(|| sv.get(k)).map_err(|p| bad("oob_panic", format!("{what}: get({k}) len {n}: {} {}", p.loc, p.msg)))?; ensure!(g.is_err(), "oob_value", "{what}: get({k}) with len {n} returned {g:?}"); }
+    for k in [n.saturating_sub(1), n] { let g = catch(|| sv.get2(k)).map_err(|p| bad("oob_panic", format!("{what}: get2({k}) len {n}: {} {}", p.loc, p.msg)))?; ensure!(g.is_err(), "oob_value", "{what}: get2({k}) with len {n} returned {g:?}"); }
+    let g = catch(|| sv.get_block(nb, &mut out)).map_err(|p| bad("oob_panic", format!("{what}: get_block({nb}) of {nb}: {} {}", p.loc, p.msg)))?; ensure!(g.is_err(), "oob_value", "{what}: get_block({nb}) with {nb} blocks returned Ok");
+    // the length as the analysis / statistics views report it (ratios and sizes are not judged)
+    let an = catch(|| sv.analyze_sequence_patterns()).map_err(|p| bad("get_panic", format!("{what}: analyze_sequence_patterns() n={n} cfg={cfg:?} panicked at {}: {}", p.loc, p.msg)))?;
+    ensure!(an.total_values == n, "len", "{what}: analyze_sequence_patterns().total_values={} want {n}", an.total_values);
+    let st = catch(|| sv.compression_stats()).map_err(|p| bad("get_panic", format!("{what}: compression_stats() n={n} panicked at {}: {}", p.loc, p.msg)))?;
+    ensure!(st.num_blocks == nb && st.block_size == bs && st.uncompressed_bytes == 8 * n, "len", "{what}: compression_stats() reports {} blocks of {} and {} plain bytes, want {nb} / {bs} / {}", st.num_blocks, st.block_size, st.uncompressed_bytes, 8 * n);
+    if st.compressed_bytes != sv.memory_usage() { c.note("stats_bytes_ne_memory_usage", 1); }
+    let ratio = sv.compression_ratio(); if !(ratio.is_finite() && ratio >= 0.0) { c.note("ratio_not_finite", 1); }
+    let k = sv.config(); if k.log2_block_units != cfg.log2_block_units || k.offset_width != cfg.offset_width || k.sample_width != cfg.sample_width { c.note("config_differs", 1); }
+    Ok(())
+}
+fn owned_pool() -> Result<zipora::SecureMemoryPool, Fail> {
+    let arc = zipora::SecureMemoryPool::new(zipora::SecurePoolConfig::small_secure()).map_err(|e| Fail { oracle: "__inconclusive".into(), detail: format!("SecureMemoryPool::new: {e}") })?;
+    std::sync::Arc::try_unwrap(arc).map_err(|_| Fail { oracle: "__inconclusive".into(), detail: "pool is shared".into() })
+}
+fn run_ext_suv(ctx: &mut Ctx) {
+    let presets: [(&str, Option<SortedUintVecConfig>); 8] = [("suv/default", Some(SortedUintVecConfig::default())), ("suv/performance", Some(SortedUintVecConfig::performance_optimized())), ("suv/memory", Some(SortedUintVecConfig::memory_optimized())),
+        ("suv/log2_4", None), ("suv/log2_5", None), ("suv/log2_6", None), ("suv/log2_7", None), ("suv/log2_8", None)];
+    for idx in 0..ctx.n(40, 400) as u64 { for (ti, (t, preset)) in presets.iter().enumerate() {
+        ctx.case(t, "api_ext", idx, |c| {
+            let cfg = preset.unwrap_or_else(|| SortedUintVecConfig { log2_block_units: ti as u8 + 1, offset_width: if c.rng.chance(1, 3) { *c.rng.pick(&[8u8, 16, 31, 32]) } else { 8 + c.rng.below(25) as u8 },
+                sample_width: match c.rng.below(3) { 0 => *c.rng.pick(&[16u8, 24, 32, 40, 48, 56, 64]), _ => 16 + c.rng.below(42) as u8 }, use_simd: c.rng.bool() });
+            let bs = 1usize << cfg.log2_block_units; let kind = *c.rng.pick(&[0usize, 1, 2, 3, 6, 5]);
+            let n = match c.rng.below(4) { 0 => *c.rng.pick(&[0usize, 1, 2, bs - 1, bs, bs + 1, 2 * bs - 1, 2 * bs, 2 * bs + 1]), 1 => c.rng.usize_below(3 * bs + 2), _ => c.rng.usize_below(1500) };
+            let vals = gen_suv(&mut c.rng, &cfg, kind, n);
+            c.input_str("cfg", &format!("{cfg:?}")); c.input_str("kind", SUV_KINDS[kind]); c.input("vals_u64_le", &le_bytes(&vals));
+            let nb = (n + bs - 1) / bs;
+            if cfg.sample_width < 64 && (0..nb).any(|b| vals[b * bs] > mask_of(cfg.sample_width as u32)) { c.tag("block_base_exceeds_sample_width"); }
+            // plain builder, one push at a time: the builder's own length view follows the pushes
+            let mut b = SortedUintVecBuilder::with_config(cfg);
+            ensure!(b.is_empty() && b.len() == 0, "builder_len", "fresh builder: len()={} is_empty()={}", b.len(), b.is_empty());
+            for (k, &x) in vals.iter().enumerate() { match catch(|| b.push(x)) { Ok(Ok(())) => {}, Ok(Err(e)) => return Err(bad("push_err", format!("push #{k} of {x} (sorted input) refused: {e}"))), Err(p) => return Err(bad(&p.class(), format!("push #{k} panicked at {}: {}", p.loc, p.msg))) }
+                ensure!(b.len() == k + 1 && !b.is_empty(), "builder_len", "after {} pushes: len()={} is_empty()={}", k + 1, b.len(), b.is_empty()); }
+            c.ev(n as u64);
+            let plain = catch(|| b.finish()).map_err(|p| bad(&p.class(), format!("finish n={n} cfg={cfg:?} panicked at {}: {}", p.loc, p.msg)))?;
+            // the same input through a builder that carries a memory pool
+            let pool = owned_pool()?;
+            let pooled = catch(|| -> zipora::Result<SortedUintVec> { let mut b = SortedUintVecBuilder::with_config(cfg).with_pool(pool); b.extend(vals.iter().copied())?; b.finish() })
+                .map_err(|p| bad(&p.class(), format!("builder with_pool n={n} cfg={cfg:?} panicked at {}: {}", p.loc, p.msg)))?;
+            match (&plain, &pooled) { (Ok(_), Err(e)) => { c.note("only_pooled_refused", 1); c.log(format!("pooled err {e}")); } (Err(e), Ok(_)) => { c.note("only_plain_refused", 1); c.log(format!("plain err {e}")); } (Err(_), Err(_)) => { c.note("ctor_err", 1); } _ => {} }
+            c.set_nontrivial(n >= 2 && (plain.is_ok() || pooled.is_ok()));
+            if let Ok(sv) = &plain { suv_reads(c, sv, &cfg, &vals, "plain builder")?; }
+            if let Ok(sv) = &pooled { suv_reads(c, sv, &cfg, &vals, "builder with_pool")?; }
+            // empty containers from the direct constructors
+            let e1 = catch(|| SortedUintVec::with_pool(cfg, owned_pool_or_panic())).map_err(|p| bad(&p.class(), format!("SortedUintVec::with_pool panicked at {}: {}", p.loc, p.msg)))?;
+            match e1 { Ok(sv) => suv_reads(c, &sv, &cfg, &[], "SortedUintVec::with_pool")?, Err(_) => c.note("empty_ctor_err", 1) }
+            if idx % 4 == 0 { let e2 = catch(SortedUintVec::new).map_err(|p| bad(&p.class(), format!("SortedUintVec::new panicked at {}: {}", p.loc, p.msg)))?;
+                match e2 { Ok(sv) => suv_reads(c, &sv, &SortedUintVecConfig::default(), &[], "SortedUintVec::new")?, Err(e) => return Err(bad("ctor_err", format!("SortedUintVec::new() with the default configuration refused: {e}"))) } }
+            Ok(())
+        });
+    } }
+}
+fn owned_pool_or_panic() -> zipora::SecureMemoryPool { match owned_pool() { Ok(p) => p, Err(f) => panic!("harness: {}", f.detail) } }
+
+fn run_ext_intvec<T: PackedInt>(ctx: &mut Ctx, tn: &str, tbits: u32) {
+    let mask = mask_of(tbits); let target = format!("iv_{tn}/from_slice");
+    for idx in 0..ctx.n(30, 300) as u64 {
+        ctx.case(&target, "clone_ext", idx, |c| {
+            let kind = c.rng.below(NKINDS as u64) as u32; let len = if idx % 6 == 5 { iv_len(&mut c.rng, 1) } else { iv_len(&mut c.rng, 0) };
+            let raw = gen_vals(&mut c.rng, kind, len, mask, tbits); let vals: Vec<T> = raw.iter().map(|&x| T::from_u64(x)).collect();
+            c.input_str("kind", kind_name(kind)); c.input_str("len", &len.to_string()); c.input("vals_u64_le", &le_bytes(&raw));
+            let ctor = *c.rng.pick(&[Ctor::FromSlice, Ctor::FromSlice, Ctor::Bulk, Ctor::Simd]);
+            let iv = match catch(|| match ctor { Ctor::FromSlice => IntVec::<T>::from_slice(&vals), Ctor::Bulk => IntVec::<T>::from_slice_bulk(&vals), Ctor::Simd => IntVec::<T>::from_slice_bulk_simd(&vals) }) {
+                Ok(Ok(v)) => v, Ok(Err(_)) => { c.note("ctor_err", 1); return Ok(()); } Err(p) => return Err(bad(&p.class(), format!("{ctor:?} n={len} panicked at {}: {}", p.loc, p.msg))) };
+            c.set_nontrivial(len >= 2);
+            // a copy answers every read like the container it was made from (which the other families compare with the input)
+            let cl = catch(|| iv.clone()).map_err(|p| bad(&p.class(), format!("clone of {ctor:?} n={len} panicked at {}: {}", p.loc, p.msg)))?;
+            ensure!(cl.len() == iv.len() && cl.is_empty() == iv.is_empty(), "clone_len", "clone len()={} original {}", cl.len(), iv.len());
+            let idxs: Vec<usize> = if len > 3000 { let mut v: Vec<usize> = (0..200).chain(len - 200..len).collect(); for _ in 0..200 { v.push(c.rng.usize_below(len)); } v } else { (0..len).collect() };
+            let mut cur = 0usize;
+            let r = catch(|| { for &i in &idxs { cur = i; let (a, b) = (iv.get(i), cl.get(i)); if a != b { return Err((a, b)); } } Ok(()) }).map_err(|p| bad("get_panic", format!("{ctor:?} n={len}: get({cur}) on original / clone panicked at {}: {}", p.loc, p.msg)))?;
+            if let Err((a, b)) = r { return Err(bad("clone_mismatch", format!("{ctor:?} n={len}: get({cur}) original {a:?} clone {b:?} (input {:?})", vals[cur]))); }
+            c.ev(idxs.len() as u64);
+            for k in [len, len + 1, usize::MAX] { let g = catch(|| cl.get(k)).map_err(|p| bad("oob_panic", format!("clone.get({k}) with len {len}: panic at {}: {}", p.loc, p.msg)))?; ensure!(g.is_none(), "oob_value", "clone.get({k}) with len {len} returned {g:?}"); }
+            let ratio = iv.compression_ratio(); if !(ratio.is_finite() && ratio >= 0.0) { c.note("ratio_not_finite", 1); }
+            Ok(())
+        });
+    }
+}
+fn run_ext_uintvector(ctx: &mut Ctx) {
+    for idx in 0..ctx.n(40, 400) as u64 {
+        ctx.case("uintvector/build_from", "api_ext", idx, |c| {
+            let kind = c.rng.below(NKINDS as u64) as u32; let len = iv_len(&mut c.rng, 0);
+            let vals: Vec<u32> = gen_vals(&mut c.rng, kind, len, u32::MAX as u64, 32).iter().map(|&x| x as u32).collect();
+            c.input_str("kind", kind_name(kind)); c.input("vals_u32_le", &vals.iter().flat_map(|x| x.to_le_bytes()).collect::<Vec<u8>>());
+            let uv = match catch(|| UintVector::build_from(&vals)) { Ok(Ok(v)) => v, Ok(Err(_)) => { c.note("ctor_err", 1); return Ok(()); }, Err(p) => return Err(bad(&p.class(), format!("build_from n={len} panicked at {}: {}", p.loc, p.msg))) };
+            c.set_nontrivial(len >= 2);
+            let mu = catch(|| uv.memory_usage()).map_err(|p| bad(&p.class(), format!("memory_usage() n={len} panicked at {}: {}", p.loc, p.msg)))?; if mu < size_of::<UintVector>() { c.note("memory_usage_lt_struct", 1); }
+            uv_check(c, &uv, &vals, "build_from")
+        });
+    }
+}
+
 pub fn run(ctx: &mut Ctx) {
     run_intvec::<u8>(ctx, "u8", 8); run_intvec::<u16>(ctx, "u16", 16); run_intvec::<u32>(ctx, "u32", 32); run_intvec::<u64>(ctx, "u64", 64);
     run_intvec::<i8>(ctx, "i8", 8); run_intvec::<i16>(ctx, "i16", 16); run_intvec::<i32>(ctx, "i32", 32); run_intvec::<i64>(ctx, "i64", 64);
@@ -885,4 +1134,10 @@ pub fn run(ctx: &mut Ctx) {
     run_huge_uintvector(ctx);
     run_huge_min0_zip(ctx);
     run_huge_suv(ctx);
+    // *_ext families (appended last)
+    run_ext_min0_zip(ctx);
+    run_ext_suv(ctx);
+    run_ext_intvec::<u8>(ctx, "u8", 8); run_ext_intvec::<u16>(ctx, "u16", 16); run_ext_intvec::<u32>(ctx, "u32", 32); run_ext_intvec::<u64>(ctx, "u64", 64);
+    run_ext_intvec::<i8>(ctx, "i8", 8); run_ext_intvec::<i16>(ctx, "i16", 16); run_ext_intvec::<i32>(ctx, "i32", 32); run_ext_intvec::<i64>(ctx, "i64", 64);
+    run_ext_uintvector(ctx);
 }
